@@ -39,7 +39,7 @@ func init() {
 				return 500_000
 			}, Run: c14Options,
 				Min: map[string]int64{"decodes": 100000, "with_palette_options": 50000, "with_color_at_options": 50000, "nonsensical_user_colors": 20000, "gradient_looking_user_colors": 5000,
-					"replacement_after_override": 5000, "paths": 100000, "flat": 50000, "suggested_palette_in_file": 30000, "non_rgba_color_models": 20000, "option_table_prefix_used_first": 10000}},
+					"replacement_after_override": 5000, "paths": 100000, "flat": 50000, "suggested_palette_in_file": 30000, "non_rgba_color_models": 20000, "option_table_prefix_used_first": 10000, "replacement_equals_default_palette": 3000, "renderer_reused_after_same_palette": 100000}},
 		},
 	})
 }
@@ -114,6 +114,17 @@ func c14Options(c *run.Ctx, idx uint64) {
 			if r.Chance(1, 4) {
 				p[r.Intn(64)] = color.RGBA{0x02, 0x14, 0x94, 0x00} // gradient-looking: 2 stops, CBASE 20, NBASE 20
 			}
+			// replacements that equal a palette the library knows: the default
+			// palette (64 opaque blacks), all transparent, the file's own
+			switch r.Intn(16) {
+			case 0, 1:
+				p = ivg.DefaultPalette
+				c.Count("replacement_equals_default_palette", 1)
+			case 2:
+				p = [64]color.RGBA{}
+			case 3:
+				p = filePal
+			}
 			userPals = append(userPals, p)
 			opts = append(opts, decode.WithPalette(p))
 			odesc = append(odesc, "WithPalette(...)")
@@ -176,6 +187,27 @@ func c14Options(c *run.Ctx, idx uint64) {
 	var z render.Renderer
 	z.SetRasterizer(rz, rect)
 	d := &rec.Dest{Tee: &z}
+	if r.Bool() {
+		// The Renderer is not fresh: it has just decoded, with the same options
+		// (hence the same effective palette), a graphic that overwrote every
+		// colour register and moved the selectors.
+		c.Count("renderer_reused_after_same_palette", 1)
+		var e2 encode.Encoder
+		e2.Reset(ivg.DefaultViewBox, filePal)
+		for i := 0; i < 64; i++ {
+			e2.SetCSel(uint8(i))
+			e2.SetCReg(0, false, ivg.RGBAColor(color.RGBA{0x10, uint8(i), 0x30, 0xee}))
+		}
+		e2.SetNSel(33)
+		e2.SetLOD(1, 2)
+		if db, err := e2.Bytes(); err == nil {
+			db = append([]byte(nil), db...)
+			if !c.Guard("Decode(dirtying graphic)", func() interface{} { return desc(nil) }, func() { decode.Decode(&z, db, opts...) }) {
+				return
+			}
+		}
+		rz.ResetLog()
+	}
 	if len(opts) >= 2 && r.Chance(1, 2) {
 		// The options live in a table with spare capacity of which an earlier
 		// decode used a prefix view: the callee must treat the slice it is
